@@ -885,10 +885,17 @@ impl Rasn {
                         None => s,
                     }
                 }
+                let mut supertypes = supertypes.clone();
+                // The innermost supertype of a struct-like value is the struct itself,
+                // which is constructed by `new`, not wrapped like a delegate type
+                let struct_name = matches!(**value, ASN1Value::LinkedStructLikeValue(_))
+                    .then(|| supertypes.pop())
+                    .flatten()
+                    .map(|t| self.to_rust_title_case(&t));
                 Ok(nester(
                     self,
-                    self.value_to_tokens(value, type_name)?,
-                    supertypes.clone(),
+                    self.value_to_tokens(value, struct_name.as_ref().or(type_name))?,
+                    supertypes,
                 ))
             }
             ASN1Value::LinkedIntValue {
